@@ -739,6 +739,7 @@ func init() {
 		flowCase(c, "flood", 1040)
 		flowCase(c, "flood", 100)
 		// a transport that stays stalled for two seconds after the request channel has filled up: deadlines of the lookups
+		flowCase(c, "stop", 1040)
 		flowCaseHold(c, "burst", 1040, 2*time.Second)
 		flowCaseHold(c, "burst", 100, 500*time.Millisecond)
 	}
